@@ -94,6 +94,17 @@ func verifC12(tlsActive bool) {
 		"MAIL FROM:<a@v>\r\nRCPT TO:<b@v> RRVS=2014-04-03T23:01:00Z",
 		"MAIL FROM:<a@v>\r\nRCPT TO:<b@v> RRVS=2014-04-03T23:01:00Z;C",
 	}
+	if nondetBool() {
+		// keywords and enumerated values are case-insensitive: the same probes
+		// in lower case must be gated in exactly the same way
+		probes = []string{
+			"MAIL FROM:<a@v> smtputf8", "MAIL FROM:<a@v> requiretls", "MAIL FROM:<a@v> body=binarymime",
+			"MAIL FROM:<a@v> ret=full", "MAIL FROM:<a@v> envid=x", "MAIL FROM:<a@v> size=10 body=8bitmime",
+			"starttls", "MAIL FROM:<a@v>\r\nRCPT TO:<b@v> notify=never", "MAIL FROM:<a@v>\r\nRCPT TO:<b@v> orcpt=rfc822;x",
+			"MAIL FROM:<a@v>\r\nRCPT TO:<b@v> rrvs=2014-04-03T23:01:00Z",
+			"MAIL FROM:<a@v>\r\nRCPT TO:<b@v> rrvs=2014-04-03T23:01:00Z;c",
+		}
+	}
 	in := hello + " c\r\n" + probes[probe] + "\r\n"
 	vc := &vconn{in: []byte(in), final: io.EOF, tlsIn: []byte(in), tlsFinal: io.EOF}
 	// without a TLS peer a real handshake over this connection fails; the stub
